@@ -60,7 +60,7 @@ ASSUMPTIONS = [
     "hypothesis of the theorem (Graph.Safe, `hpre`; the edges are listed in excludedEdges of the generated modules): no empty std::function is invoked (edge to std::__throw_bad_function_call) - checked by the dynamic engine for every port of the tables built with the library's own macros (`emptycb`), assumed for application tables; assertions are compiled out (__assert_fail; NDEBUG as in the default build); no exception unwinds on the realtime path (calls in landing pads / catch handlers; everything that can throw is in the forbidden set and the dynamic engine reports any exception that leaves the realtime section)",
     "application callbacks are represented by the callbacks of harness/rt_tree.h (every port-sugar.h callback macro) and an application RtData that copies replies into a fixed buffer; port tables defined in the library's other translation units (e.g. MidiMapperRT::ports) are not analysed",
     "external leaves on the whitelist (see coverage.whitelist_reached) neither allocate, lock nor throw; this is assumed of libc, not proved (the dynamic engine observes no allocator call from them)",
-    "`never locks` is checked as: no mutex / rwlock / condition / once / guard function is reachable, no function on the path contains an atomic read-modify-write instruction (atomicrmw, cmpxchg: what a lock without a callee is made of; plain atomic loads and stores are allowed), and dynamically no operation blocks when it is started while another operation on the same ThreadLink is suspended; a wait loop built from plain atomic loads/stores only would not be seen by the graph",
+    "`never locks` is checked as: no mutex / rwlock / condition / once / guard function is reachable, no function on the path contains an atomic read-modify-write instruction (atomicrmw, cmpxchg) in a basic block that lies on a control-flow cycle (what a spin/ticket lock without a callee, or a retry loop, is made of; plain atomic loads and stores, and read-modify-writes outside of loops such as counters, are allowed), and dynamically no operation blocks when it is started while another operation on the same ThreadLink is suspended; a wait loop built from plain atomic loads/stores only would not be seen by the graph",
     "not covered: page faults, lazy PLT binding, allocation inside whitelisted libc functions under unusual locales",
 ]
 TRUSTED = ["tools/callgraph.py (textual LLVM IR extraction, CMakeLists.txt flag extraction, classification lists FORBIDDEN/WHITELIST), clang 14 IR emission, llvm-link",
@@ -71,7 +71,7 @@ LEVEL_TEXT = ("proof over a regenerated call graph; partial. Lean theorem rt_pat
               "over-approximates the calls that can happen and that the listed excluded edges (empty std::function, assert, "
               "unwinding) are never executed: no call path of any length from a realtime entry point reaches an allocator, "
               "deallocator, mutex, exception-allocation or stdio function or a function containing an atomic read-modify-write "
-              "instruction, and every external it reaches is a whitelisted leaf; the public realtime API functions are pinned by "
+              "instruction inside a loop, and every external it reaches is a whitelisted leaf; the public realtime API functions are pinned by "
               "name to be entries and the allocator/lock names to be forbidden; generic induction proved once, per-run "
               "obligations checked by kernel evaluation of a reachable-set certificate; the graph's indirect-call resolution "
               "and the excluded edges are validated by executing thousands of generated realtime operations with the allocator "
@@ -253,21 +253,6 @@ def inst_name(rng, name, stats=None):
     return base + slash
 
 
-# Outside C03's subject, found while building this generator: the LAST alternative of an argument restrictor
-# (`::i:c:S`, `::T:F`) matches every type string it is a prefix of, and the option/toggle callbacks then forward the
-# caller's type string to a varargs broadcast without the matching arguments (reads a garbage pointer for s/S/b/m).
-# The generator stays away from that crash: no pointer-carrying tag behind the last alternative on those ports.
-FORWARDING_PORTS = {"po", "mode", "cmode", "ao#4", "pt", "on", "at#4", "am#4", "gate"}
-
-
-def safe_types(name, tys, types):
-    if name in FORWARDING_PORTS and tys and types and types[0] == tys[-1][:1]:
-        if name in OPTION_SYMS:
-            return types[0]        # "S<more>" is forwarded as the type string of an int argument
-        return types[0] + "".join(c for c in types[1:] if c not in "sSbm")
-    return types
-
-
 def sugar_message(rng, stats):
     level = rng.choice(["root", "mid", "mid", "leaf", "leaf", "leaf"])
     if level == "root":
@@ -295,7 +280,6 @@ def sugar_message(rng, stats):
     else:
         types = rng.choice(tys)
         pname = pname + rng.choice(["x", "", "/", "0"]) if rng.random() < 0.7 else pname[:-1]
-    types = safe_types(name, tys, types)
     vals = rvals(rng, types, big=big)
     if name in OPTION_SYMS and types == "S" and rng.random() < 0.8:
         vals = [rng.choice(OPTION_SYMS[name])]
@@ -444,6 +428,10 @@ def op_build(rng, stats):
         types = LIT_SIGS[sig]
     else:
         types = rtypes(rng, 10)
+        if rng.random() < 0.12:
+            # long argument lists (the varargs front end unpacks them into a stack array sized by the argument count)
+            types = "".join(rng.choice(ALL_TAGS if rng.random() < 0.3 else PAYLOAD) for _ in range(rng.choice([15, 16, 17, 18, 24, 33, 40, 64])))
+            stats["build_long_argument_lists"] = stats.get("build_long_argument_lists", 0) + 1
         if types in LIT_SIGS:
             sig = LIT_SIGS.index(types)
     vals = rvals(rng, types, big=big)
@@ -835,38 +823,30 @@ def _compile_all(jobs):
         raise vlib.BuildError(bad)
 
 
-def build_engine_shipped():
-    """The engine linked with the library compiled by gcc/g++ with what CMakeLists.txt says (language levels, build
-    type flags, definitions); the harness units (rt_entries.cpp instantiates the header macros) get the same flags.
-    Additionally, when <tree>/_build holds static libraries newer than every source, an engine linked with those.
-    Returns [(name, exe, description)]."""
+def _build_engine(name, cxx, c_core, c_other, opt, core, with_cmake_build=False):
+    """Library sources + harness units compiled by gcc/g++ with the given flags and linked into an engine.
+    Returns [(name, exe, description)] (plus the engine linked with <tree>/_build/*.a when asked for and present)."""
     import shutil
-    cm = callgraph.cmake_config()
-    cxx = ["-std=" + cm["cxx_std"]]
-    c_core = ["-std=" + cm["c_std_core"]] if cm["c_std_core"] else []
-    c_other = ["-std=" + cm["c_std_other"]] if cm["c_std_other"] else []
-    opt = cm["opt"] + cm["defs"] + ["-fPIC", "-g", "-DRTOSC_VERIF"]
-    core = set(cm["core_c"] or ["src/rtosc.c", "src/dispatch.c", "src/rtosc-time.c"])
     hdir = os.path.join(vlib.VERIF, "harness")
     hsrc = [os.path.join(hdir, x) for x in HARNESS["src"]]
     hdeps = hsrc + [os.path.join(hdir, d) for d in HARNESS["deps"]]
-    key = vlib.sha_files(vlib.repo_files() + hdeps, " ".join(cxx + c_core + c_other + opt) + "rt17-2")
-    exe = os.path.join(vlib.BUILD, "h-rt17-" + key)
+    key = vlib.sha_files(vlib.repo_files() + hdeps, " ".join(cxx + c_core + c_other + opt) + "rt-3" + name)
+    exe = os.path.join(vlib.BUILD, "h-rt%s-%s" % (name, key))
     inc = ["-I", os.path.join(vlib.REPO, "include"), "-I", os.path.join(vlib.REPO, "src/cpp"),
            "-I", os.path.join(vlib.REPO, "src"), "-I", hdir]
     desc = "library + harness compiled by gcc/g++ with %s / %s, %s" % (" ".join(cxx), " ".join(c_core) or "default C", " ".join(opt))
     out = []
-    with vlib.Lock("h-rt17"):
-        objdir = os.path.join(vlib.BUILD, "lib-ship-" + key)
+    with vlib.Lock("h-rt" + name):
+        objdir = os.path.join(vlib.BUILD, "lib-rt%s-%s" % (name, key))
         hobjs = [os.path.join(objdir, "h_" + os.path.basename(x) + ".o") for x in hsrc]
         if not os.path.exists(exe):
             for f in os.listdir(vlib.BUILD):
-                if f.startswith("h-rt17-") and not f.endswith(".lock"):
+                if f.startswith("h-rt%s-" % name) and not f.endswith(".lock"):
                     try:
                         os.remove(os.path.join(vlib.BUILD, f))
                     except OSError:
                         pass
-                if f.startswith("lib-ship-"):
+                if f.startswith("lib-rt%s-" % name):
                     shutil.rmtree(os.path.join(vlib.BUILD, f), ignore_errors=True)
             os.makedirs(objdir, exist_ok=True)
             vlib.version_c(os.path.join(objdir, "version.c"))
@@ -886,12 +866,12 @@ def build_engine_shipped():
             _compile_all(jobs)
             r = vlib.sh(["g++"] + hobjs + objs + ["-o", exe + ".tmp", "-lpthread"] + HARNESS.get("libs", []))
             if r.returncode != 0:
-                raise vlib.BuildError("engine rt17 does not link:\n" + r.stdout[-4000:])
+                raise vlib.BuildError("engine rt%s does not link:\n%s" % (name, r.stdout[-4000:]))
             os.rename(exe + ".tmp", exe)
-        out.append(("shipped", exe, desc))
+        out.append((name, exe, desc))
         # ---- the tree's own CMake build, when there is one and it is not older than the sources
         libs = [os.path.join(vlib.REPO, "_build", x) for x in ("librtosc-cpp.a", "librtosc.a")]
-        if all(os.path.exists(x) for x in libs):
+        if with_cmake_build and all(os.path.exists(x) for x in libs):
             newest = max(os.path.getmtime(f) for f in vlib.repo_files() if os.path.exists(f))
             if min(os.path.getmtime(x) for x in libs) >= newest:
                 k2 = vlib.sha_files(libs + hdeps, key + "cm")
@@ -918,10 +898,28 @@ def build_engine_shipped():
 
 
 def build_engines():
-    engines = [("min", vlib.build_harness(ENGINE, HARNESS, FLAVOUR),
-                "library + harness compiled by gcc/g++ -std=c++11/-std=gnu99 -O1 -DNDEBUG (tools/vlib.py)")]
-    engines += build_engine_shipped()
-    return engines
+    """One engine per configuration of tools/callgraph.py (same language levels / optimisation), compiled by gcc."""
+    import concurrent.futures
+    cfgs = callgraph.configs()
+    with concurrent.futures.ThreadPoolExecutor(max_workers=len(cfgs)) as ex:
+        futs = []
+        for c in cfgs:
+            cxx_opts = [c["cxx"]] + ([[x] for x in callgraph.MIN_FALLBACK_CXX] if c["name"] == "min" else [])
+
+            def job(c=c, cxx_opts=cxx_opts):
+                last = None
+                for cxx in cxx_opts:
+                    try:
+                        return _build_engine(c["name"], cxx, c["c_core"], c["c_other"], c["opt"] + ["-g", "-DRTOSC_VERIF"], c["core"],
+                                             with_cmake_build=(c["name"] == "shipped"))
+                    except vlib.BuildError as e:
+                        last = e
+                raise last
+            futs.append(ex.submit(job))
+        out = []
+        for f in futs:
+            out += f.result()
+    return out
 
 
 # ---------------------------------------------------------------------------------------
@@ -1119,7 +1117,8 @@ def _run(args, workdir, t0):
                    for o in offending[:8]]
     real_fails = [f for f in fails if not f[2].startswith("engine rejected")]
     # prefer a failing input that reports counted hits over one that only crashed
-    real_fails.sort(key=lambda f: 1 if f[1].startswith("crash:") else 0)
+    real_fails.sort(key=lambda f: (1 if f[1].startswith("crash:") else 0, 1 if f[0].startswith("selftest") else 0,
+                                   1 if f[1].startswith("hits=0") else 0))
     if real_fails:
         op, out, f, eng = real_fails[0]
         path = vlib.write_replay(PROP, "input", {
